@@ -135,6 +135,18 @@ def run(ctx):
         ce = q.const_eq(d[0].rhs) if len(d) == 1 and not d[0].guard else None
         ctx.need(ce is not None and ce[1] == 'self.interface.pid', 'definition of interface.' + fl)
         flags[fl] = ce[0]
+    # (f) the detector's response timer (whose expiry is ready_for_response) is started by a reported token only: a SOF or
+    #     a token for another device must not produce a response strobe for the token direction still standing
+    rfr = td_.drivers('self.interface.ready_for_response', exact=True)
+    tsrc = sorted(rfr[0].rhs.sigs()) if len(rfr) == 1 and isinstance(rfr[0].rhs, E) else []
+    ctx.need(len(tsrc) == 1 and tsrc[0].endswith('.tx_allowed'), 'ready_for_response as the tx_allowed output of the response timer')
+    tstart = tsrc[0][:-len('tx_allowed')] + 'start'
+    ts = q.raises(td_, tstart)
+    ctx.need(ts, 'the site starting the response timer (%s)' % tstart)
+    loose = [a for a in ts if not (a.state == nt[0].state and ours <= q.atoms(a))]
+    ctx.ob('C20.response-timer-per-token', 'USBTokenDetector.response-timer.start', not loose, (loose or ts)[0].loc,
+           'the response timer may be started only where a token is reported (%s): %s' % (
+               sorted(ours), [q.fmt(a)[:200] for a in loose]))
     from ..fsm import holds
     pw = [a for a in td_.drivers('self.interface.pid', exact=True) if a.state == nt[0].state or a.state is None]
 
